@@ -1,16 +1,44 @@
-(* C06 tie lemmas: the integrands Basis._projection hands to the two forms are, on scalar fields, the product;
-   the condensed call of project is the model's. *)
-From Coq Require Import List ZArith Ring.
+(* C06 tie lemmas: the integrand Basis._projection hands to the two forms — helpers.inner on a tuple of scalar- or
+   vector-valued fields — is the sum over ALL components of the products; the condensed call of project is the model's. *)
+From Coq Require Import List ZArith Arith Lia Ring.
+Import ListNotations.
 Require Import Base.C05_Np Model.C05_BC Model.C06_Galerkin Proofs.C05_CondenseProofs Proofs.C06_GalerkinProofs Gen.C06Gen.
 
 Section Tie.
   Context {R : Type} (o : ring_ops R).
   Hypothesis Rth : ring_theory (r0 o) (r1 o) (radd o) (rmul o) (rsub o) (ropp o) (@eq R).
   Add Ring RringT : Rth.
-  Lemma gen_mass_kernel_is_mul : forall u v, gen_mass_kernel o u v = rmul o u v.
-  Proof. intros. unfold gen_mass_kernel, gen_inner_tuple1, gen_inner_scalar. ring. Qed.
-  Lemma gen_load_kernel_is_mul : forall w v, gen_load_kernel o w v = rmul o w v.
-  Proof. intros. unfold gen_load_kernel, gen_inner_tuple1, gen_inner_scalar. ring. Qed.
+  Local Notation lsum := (C06_Galerkin.lsum o).
+
+  Lemma gen_dot_maps (f g : nat -> R) s :
+    gen_dot o (map f s) (map g s) = lsum (fun c => rmul o (f c) (g c)) s.
+  Proof. unfold gen_dot. induction s as [|a s IH]; simpl; [reflexivity|]. now rewrite <- IH. Qed.
+
+  Lemma gen_inner_field_maps (f g : nat -> R) s :
+    gen_inner_field o (map f s) (map g s) = lsum (fun c => rmul o (f c) (g c)) s.
+  Proof.
+    destruct s as [|a [|a' s]].
+    - reflexivity.
+    - simpl. ring.
+    - change (gen_inner_field o (map f (a :: a' :: s)) (map g (a :: a' :: s))) with (gen_dot o (map f (a :: a' :: s)) (map g (a :: a' :: s))).
+      apply gen_dot_maps.
+  Qed.
+
+  Lemma gen_inner_tuple_from (f g : nat -> R) sh : forall off acc,
+    fold_left (fun a p => radd o a (gen_inner_field o (fst p) (snd p)))
+              (combine (unflatten_from off sh f) (unflatten_from off sh g)) acc
+    = radd o acc (lsum (fun c => rmul o (f c) (g c)) (seq off (ncomp sh))).
+  Proof.
+    induction sh as [|k sh IH]; intros off acc; simpl; [ring|].
+    rewrite IH, gen_inner_field_maps. rewrite seq_app, (lsum_app o Rth). ring.
+  Qed.
+
+  Lemma gen_mass_kernel_is_dot : kernel_is_dot o (gen_mass_kernel o).
+  Proof.
+    intros sh f g. unfold gen_mass_kernel, gen_inner_tuple, unflatten. rewrite gen_inner_tuple_from. ring.
+  Qed.
+  Lemma gen_load_kernel_is_dot : kernel_is_dot o (gen_load_kernel o).
+  Proof. exact gen_mass_kernel_is_dot. Qed.
 End Tie.
 Lemma gen_projection_is_model : forall R (o : ring_ops R) N B x,
   gen_projection o N B x = (mass_matrix o (gen_mass_kernel o) N B, load_vector o (gen_load_kernel o) N B x).
